@@ -308,11 +308,12 @@ type Call struct {
 // Fault kinds a controller can assign to a call
 const (
 	FaultNone      = ""
-	FaultTransport = "transport"    // plain Go error, no data
-	FaultPartial   = "errs+partial" // graphql errors plus the data
-	FaultErrsNull  = "errs+null"    // graphql errors, no data
-	FaultNodeNull  = "node:null"    // {"node": null}
-	FaultWrong     = "wrong-shape"  // a string where an object is expected
+	FaultTransport = "transport"      // plain Go error, no data
+	FaultPartial   = "errs+partial"   // graphql errors plus the data
+	FaultErrsNull  = "errs+null"      // graphql errors, no data
+	FaultNodeNull  = "node:null"      // {"node": null}
+	FaultWrong     = "wrong-shape"    // a string where an object is expected
+	FaultErrsNode  = "errs+node:null" // graphql errors together with {"node": null}
 )
 
 type Controller struct {
@@ -423,6 +424,9 @@ func (s *Service) query(ctx context.Context, in *graphql.QueryInput, recv interf
 	case FaultWrong:
 		*out = map[string]interface{}{"node": "oops"}
 		return nil
+	case FaultErrsNode:
+		*out = map[string]interface{}{"node": nil}
+		return graphql.ErrorList{&graphql.Error{Message: "no such object at " + s.Name}}
 	}
 	op := doc.Operations[0]
 	rt := "Query"
